@@ -29,6 +29,11 @@ def canonicalise(tree: ast.AST) -> None:
       not not X                ->  X
       not (a == b) / (a in b) / (a is b) and their negative forms -> the single comparison
     Line numbers stay those of the original nodes."""
+    # a temporary that only names the condition of the if-statement that follows, or the value of the return
+    # that follows, is read through:   c = COND; if c: ..  ->  if COND: ..      r = f(x); return r  ->  return f(x)
+    for fn_ in ast.walk(tree):
+        if isinstance(fn_, (ast.FunctionDef, ast.AsyncFunctionDef)):
+            _inline_adjacent_temporaries(fn_)
     # private constants are read as their value: `_NAME = "literal"` at module or class level (bound once, never
     # re-bound) replaces `_NAME` / `self._NAME` / `cls._NAME` / `Class._NAME`; then `"..{a}..".format(a=x)` is
     # read as the f-string it abbreviates
@@ -85,6 +90,23 @@ def canonicalise(tree: ast.AST) -> None:
             op = type(node.ops[0])
             if (lc and not rc) or (not lc and not rc and op in (ast.Gt, ast.GtE)):
                 node.left, node.comparators[0], node.ops[0] = r_, l_, _flip[op]()
+            elif not lc and not rc and op in (ast.Eq, ast.NotEq) and _selector(l_) and _selector(r_) and _order_key(l_) > _order_key(r_):
+                # a == b and b == a are one spelling: operands in a fixed (textual) order
+                node.left, node.comparators[0] = r_, l_
+    # for k in D: v = D[k]; ..   ->   for k, v in D.items(): ..     (D a name / attribute chain not assigned in the body)
+    for node in ast.walk(tree):
+        if isinstance(node, ast.For) and isinstance(node.target, ast.Name) and isinstance(node.iter, (ast.Name, ast.Attribute)) and len(node.body) >= 2:
+            first = node.body[0]
+            if isinstance(first, ast.Assign) and len(first.targets) == 1 and isinstance(first.targets[0], ast.Name) and isinstance(first.value, ast.Subscript) \
+                    and ast.dump(first.value.value) == ast.dump(node.iter) and isinstance(first.value.slice, ast.Name) and first.value.slice.id == node.target.id and first.targets[0].id != node.target.id:
+                vname = first.targets[0].id
+                rest = node.body[1:]
+                rebinding = any(isinstance(x, ast.Name) and isinstance(x.ctx, ast.Store) and x.id in (vname, node.target.id) for s_ in rest for x in ast.walk(s_))
+                if not rebinding:
+                    node.target = ast.copy_location(ast.Tuple(elts=[ast.Name(id=node.target.id, ctx=ast.Store()), ast.Name(id=vname, ctx=ast.Store())], ctx=ast.Store()), node.target)
+                    node.iter = ast.copy_location(ast.Call(func=ast.Attribute(value=node.iter, attr="items", ctx=ast.Load()), args=[], keywords=[]), node.iter)
+                    node.body = rest
+                    ast.fix_missing_locations(node)
     # for k, v in d.items() with an unused k (v)  ->  for v in d.values()  (for k in d)
     for fn_ in ast.walk(tree):
         if not isinstance(fn_, (ast.FunctionDef, ast.AsyncFunctionDef)):
@@ -235,6 +257,99 @@ def canonicalise(tree: ast.AST) -> None:
             if isinstance(t, ast.UnaryOp) and isinstance(t.op, ast.Not):
                 node.test = t.operand
                 node.body, node.orelse = node.orelse, node.body
+
+
+def _selector(e: ast.AST) -> bool:
+    """name / attribute / subscript chain without calls"""
+    if isinstance(e, ast.Name):
+        return True
+    if isinstance(e, ast.Attribute):
+        return _selector(e.value)
+    if isinstance(e, ast.Subscript):
+        return _selector(e.value) and isinstance(e.slice, (ast.Name, ast.Constant, ast.UnaryOp))
+    return False
+
+
+def _order_key(e: ast.AST):
+    try:
+        return (0 if isinstance(e, (ast.Name, ast.Attribute)) else 1, ast.unparse(e))
+    except Exception:
+        return (2, "")
+
+
+def _inline_adjacent_temporaries(fn_: ast.AST) -> None:
+    for _round in range(3):
+        stores: dict = {}
+        loads: dict = {}
+        for n in ast.walk(fn_):
+            if isinstance(n, ast.Name):
+                if isinstance(n.ctx, (ast.Store, ast.Del)):
+                    stores[n.id] = stores.get(n.id, 0) + 1
+                else:
+                    loads.setdefault(n.id, []).append(n)
+            elif isinstance(n, ast.arg):
+                stores[n.arg] = stores.get(n.arg, 0) + 1
+            elif isinstance(n, (ast.Global, ast.Nonlocal)):
+                for x in n.names:
+                    stores[x] = stores.get(x, 0) + 2
+        changed = False
+        for holder in ast.walk(fn_):
+            for fld in ("body", "orelse", "finalbody"):
+                seq = getattr(holder, fld, None)
+                if not (isinstance(seq, list) and len(seq) >= 2 and isinstance(seq[0], ast.stmt)):
+                    continue
+                i = 0
+                while i + 1 < len(seq):
+                    st, nxt = seq[i], seq[i + 1]
+                    ok_ = isinstance(st, ast.Assign) and len(st.targets) == 1 and isinstance(st.targets[0], ast.Name) and not isinstance(st.value, (ast.Constant, ast.Name, ast.Yield, ast.YieldFrom, ast.Await))
+                    if ok_:
+                        t = st.targets[0].id
+                        ok_ = stores.get(t, 0) == 1 and len(loads.get(t, [])) == 1
+                    if ok_:
+                        use = loads[t][0]
+                        # only where the temporary merely names a condition or a result: the test of the
+                        # if-statement that follows, or the value of the return that follows (a temporary that
+                        # holds a constructed / popped object before it is passed on is left alone - the rules
+                        # follow such objects by name)
+                        if isinstance(nxt, ast.If):
+                            hdrs = [nxt.test]
+                        elif isinstance(nxt, ast.Return) and nxt.value is use:
+                            hdrs = [nxt]
+                        else:
+                            hdrs = []
+                        inside = any(any(u is use for u in ast.walk(h)) for h in hdrs)
+                        scoped = any(isinstance(x, (ast.Lambda, ast.ListComp, ast.SetComp, ast.DictComp, ast.GeneratorExp)) and any(u is use for u in ast.walk(x)) for h in hdrs for x in ast.walk(h))
+                        # an if-test that is the temporary itself or its negation, or any simple statement
+                        if inside and not scoped:
+                            for par in (y for h in hdrs for y in ast.walk(h)):
+                                done = False
+                                for f2, v2 in ast.iter_fields(par):
+                                    if v2 is use:
+                                        setattr(par, f2, st.value)
+                                        done = True
+                                    elif isinstance(v2, list):
+                                        for k2, e2 in enumerate(v2):
+                                            if e2 is use:
+                                                v2[k2] = st.value
+                                                done = True
+                                if done:
+                                    break
+                            else:
+                                # the header is the use itself (`if t:`)
+                                if isinstance(nxt, ast.If) and nxt.test is use:
+                                    nxt.test = st.value
+                                elif isinstance(nxt, (ast.For, ast.AsyncFor)) and nxt.iter is use:
+                                    nxt.iter = st.value
+                                else:
+                                    i += 1
+                                    continue
+                            del seq[i]
+                            changed = True
+                            stores[t] = 0
+                            continue
+                    i += 1
+        if not changed:
+            break
 
 
 def _inline_private_constants(tree: ast.AST) -> None:
